@@ -442,3 +442,25 @@ mod tests {
         assert!(counts.record_data_frame(0).is_err());
     }
 }
+
+#[cfg(feature = "verif-hooks")]
+impl Counts {
+    pub(super) fn verif_snap(&self) -> crate::verif::CountsSnap {
+        crate::verif::CountsSnap {
+            is_server: self.peer.is_server(),
+            max_send_streams: self.max_send_streams,
+            num_send_streams: self.num_send_streams,
+            max_recv_streams: self.max_recv_streams,
+            num_recv_streams: self.num_recv_streams,
+            max_local_reset_streams: self.max_local_reset_streams,
+            num_local_reset_streams: self.num_local_reset_streams,
+            max_remote_reset_streams: self.max_remote_reset_streams,
+            num_remote_reset_streams: self.num_remote_reset_streams,
+            max_local_error_reset_streams: self.max_local_error_reset_streams,
+            num_local_error_reset_streams: self.num_local_error_reset_streams,
+            data_frame_budget_available: self.data_frame_budget.available,
+            data_frame_budget_max: self.data_frame_budget.max,
+            num_recv_empty_data_frames: self.num_recv_empty_data_frames,
+        }
+    }
+}
